@@ -177,8 +177,10 @@ fn manual(m: &'static M18, name: &'static str) -> (SpanGuard<'static, &'static C
 }
 
 fn form_manual_enter(m: &'static M18) -> Leave {
-    let (mut guard, mut frame) = manual(m, "SpanGuard::new then enter");
+    let (guard, mut frame) = manual(m, "SpanGuard::new then enter");
     let _entered = frame.enter();
+    // declared after the EnterGuard: dropped before it, also when a panic unwinds through here
+    let mut guard = guard;
     guard.start();
     reply_ok();
     let l = run_loop(m);
@@ -335,10 +337,11 @@ impl Machine for M18 {
                         let l = rethrow(r);
                         self.after_nested(l)
                     }
-                    TFrame::Span(mut frame, mut guard) => {
+                    TFrame::Span(mut frame, guard) => {
                         let how = salt / 2 + f;
                         let leave = if (salt + f) % 2 == 0 {
                             frame.call(move || {
+                                let mut guard = guard;
                                 guard.start_it();
                                 reply_ok();
                                 let l = run_loop(self);
@@ -347,6 +350,7 @@ impl Machine for M18 {
                             })
                         } else {
                             let _g = frame.enter();
+                            let mut guard = guard;      // dropped before _g, also on unwinding
                             guard.start_it();
                             reply_ok();
                             let l = run_loop(self);
@@ -468,7 +472,11 @@ fn main() {
             let mut consumed = 0usize;
             let mut sampled_before = 0usize;
             let o = run_case(m, nthreads, steps, |_, step, rep, obs| {
-                if rep.get("panicked").is_some() {
+                if step["op"] == "panic" {
+                    if rep["panicked"].as_str() != Some(SCRIPTED_PANIC) {
+                        return Some(json!({"what": "scripted panic was not the panic that arrived", "detail": rep}));
+                    }
+                } else if rep.get("panicked").is_some() {
                     return Some(json!({"what": "panic in code under test", "detail": rep}));
                 }
                 if step["op"] == "header" {
@@ -502,37 +510,47 @@ fn main() {
                 let rows: Vec<Row> = m.rows.0.lock().unwrap()[consumed..].to_vec();
                 consumed += rows.len();
                 let want = step.get("emits").and_then(|e| e.as_array()).cloned().unwrap_or_default();
+                // Rows are matched to the demands in order (a panic completes several spans, innermost
+                // first).  A "no" demand claims no row; whatever is left over at the end was emitted
+                // although it must not be.
                 let mut ri = 0usize;
+                let mut forbidden: Option<&Value> = None;
                 for w in want.iter() {
                     let must = w["must"].as_str().unwrap_or("any");
-                    let got = rows.get(ri).filter(|r| r.span == (w["kind"] == "span"));
-                    match (must, got) {
-                        ("no", Some(r)) => {
-                            return Some(json!({"what": if r.span { "a span of an unsampled trace was emitted" } else { "an event inside an unsampled trace passed the sampled-trace filter" },
-                                "detail": {"got": format!("{r:?}")}}));
-                        }
-                        ("yes", None) => {
-                            return Some(json!({"what": "a span / event inside a sampled trace was not emitted", "detail": {"want": w, "got": format!("{rows:?}")}}));
-                        }
-                        ("yes", Some(r)) => {
+                    let is_span = w["kind"] == "span";
+                    match must {
+                        "no" => forbidden = Some(w),
+                        "yes" => {
+                            let Some(r) = rows.get(ri) else {
+                                return Some(json!({"what": "a span / event inside a sampled trace was not emitted", "detail": {"want": w, "got": format!("{rows:?}")}}));
+                            };
                             ri += 1;
                             // events: trace + innermost span; spans: also the parent
-                            let ok = if r.span {
-                                unify_ids(bij, &w["ids"], &r.trace, &r.id, &r.parent)
-                            } else {
-                                unify_ids(bij, &json!([w["ids"][0], w["ids"][1], 0]), &r.trace, &r.id, &None)
-                            };
+                            let ok = r.span == is_span
+                                && if r.span {
+                                    unify_ids(bij, &w["ids"], &r.trace, &r.id, &r.parent)
+                                } else {
+                                    unify_ids(bij, &json!([w["ids"][0], w["ids"][1], 0]), &r.trace, &r.id, &None)
+                                };
                             if !ok {
-                                return Some(json!({"what": "emitted record carries other ids than the sampled trace / innermost span / caller span",
+                                return Some(json!({"what": if forbidden.is_some() { "a span of an unsampled trace was emitted, or a record carries other ids than the sampled trace / innermost span / caller span" } else { "emitted record carries other ids than the sampled trace / innermost span / caller span" },
                                     "detail": {"want": w["ids"], "got": format!("{r:?}"), "known": bij.dump()}}));
                             }
                         }
-                        ("any", Some(_)) => ri += 1,
-                        _ => {}
+                        _ => {
+                            if rows.get(ri).map_or(false, |r| r.span == is_span) {
+                                ri += 1;
+                            }
+                        }
                     }
                 }
                 if ri != rows.len() {
-                    return Some(json!({"what": "a step emitted records the program does not account for", "detail": {"want": want, "got": format!("{rows:?}")}}));
+                    let r = &rows[ri];
+                    return Some(match forbidden {
+                        Some(_) => json!({"what": if r.span { "a span of an unsampled trace was emitted" } else { "an event inside an unsampled trace passed the sampled-trace filter" },
+                            "detail": {"got": format!("{r:?}")}}),
+                        None => json!({"what": "a step emitted records the program does not account for", "detail": {"want": want, "got": format!("{rows:?}")}}),
+                    });
                 }
                 for (t, o) in obs.iter().enumerate() {
                     if o.get("panicked").is_some() {
